@@ -155,7 +155,7 @@ func reachable(g []gNode) bool {
 }
 
 func enumC16(tier string, part, parts, skip int, deadline time.Time, note func(int, string)) *run.EnumResult {
-	res := &run.EnumResult{Exhaustive: true, Rule: "HTTP rendering: every rooted resource graph (all nodes reachable over non-soft references from the root) with <=2 nodes over the full slot alphabet {primitive, data value, soft ref->j, ref->j} and with 3 nodes over {primitive, ref->j} (thorough: full alphabet), node kinds {model with 2 keys incl. one needing escapes, collection with 0..2 items, error leaf}, both encodings, apiPath in {/api/, /}; GET and HEAD through Service.ServeHTTP against an independent recursive renderer (value equality of JSON); plus POST result/resource/error cases. distinct_nontrivial counts graphs containing a cycle, a shared child or an error leaf"}
+	res := &run.EnumResult{Exhaustive: true, Rule: "HTTP rendering: every rooted resource graph (all nodes reachable over non-soft references from the root) with <=2 nodes over the full slot alphabet {primitive, data value, soft ref->j, ref->j} and with 3 nodes over {primitive, ref->j} (thorough: full alphabet), node kinds {model with 2 keys incl. one needing escapes, collection with 0..2 items, error leaf}, both encodings, apiPath in {/api/, /}; GET and HEAD through Service.ServeHTTP against an independent recursive renderer (value equality of JSON); plus models whose keys need JSON escaping (control characters, quotes, backslash, <>&, non-ASCII, U+2028/9, empty key) in both encodings; plus POST result/resource/error cases. distinct_nontrivial counts graphs containing a cycle, a shared child or an error leaf"}
 	idx := -1
 	var w *mc.World
 	var curCfg string
@@ -297,6 +297,40 @@ func enumC16(tier string, part, parts, skip int, deadline time.Time, note func(i
 					}
 				}
 				rec(0)
+			}
+		}
+	}
+	// model keys that need (or look as if they need) JSON escaping, one or two per model
+	escKeys := []string{"\t", "\n", "\x00", "\x01", "\x1f", "\x7f", " ", "a b", "<", ">", "&", "\\", "\"", "/", "é", "\u2028", "\u2029", "\ufffd", "", "a\tb", "\tk\"", "k\n<"}
+	for _, enc := range []string{"json", "jsonflat"} {
+		for i, k1 := range escKeys {
+			for j, k2 := range append([]string{"plain"}, escKeys...) {
+				if j > 0 && (tier != "thorough" || k2 == k1) {
+					continue
+				}
+				desc := fmt.Sprintf("keys %s %q %q", enc, k1, k2)
+				if !active(desc) {
+					continue
+				}
+				world(enc, "/api/")
+				used++
+				gi++
+				name := fmt.Sprintf("g%d.k%d", gi, i)
+				w.Svc.Model(name, k1, `1`, k2, `"v"`)
+				hg := w.HTTP(mc.HTTPReq{Method: "GET", URL: "/api/" + strings.ReplaceAll(name, ".", "/")})
+				ok := w.Drain(2000)
+				res.Evaluations++
+				res.Distinct++
+				if !ok || !hg.Done {
+					fail("no-termination", "rendering did not terminate: "+desc, desc)
+					w.Hung = true
+					continue
+				}
+				want := canonAny(map[string]interface{}{k1: 1, k2: "v"})
+				got := mc.CanonJSON(hg.Rec.Body.Bytes())
+				if hg.Rec.Code != 200 || got != want {
+					fail("render-mismatch", fmt.Sprintf("%s: status %d body %q, reference %s", desc, hg.Rec.Code, hg.Rec.Body.String(), want), desc)
+				}
 			}
 		}
 	}
